@@ -104,7 +104,7 @@ fn key_mode<const N: usize>(o: &Opts) -> KeyMode {
     if let Some(k) = o.key {
         return k;
     }
-    if o.thorough() && N <= 5 {
+    if o.thorough() && N <= 7 {
         KeyMode::Fine
     } else {
         KeyMode::Layout
